@@ -30,6 +30,7 @@ pub enum Error {
     InvalidInteger,
     InvalidFloat,
     ExpectBinOpToken,
+    NestingTooDeep(usize),
 }
 
 #[cfg(not(tarpaulin_include))]
@@ -67,6 +68,7 @@ impl fmt::Display for Error {
             InvalidInteger => write!(f, "invalid integer"),
             InvalidFloat => write!(f, "invalid float"),
             ExpectBinOpToken => write!(f, "expect bin op token"),
+            NestingTooDeep(max) => write!(f, "expression nested deeper than {}", max),
         }
     }
 }
